@@ -114,6 +114,9 @@ def Sim.init (maxWal : Nat) : Sim :=
 def addNew (xs : List (TName N)) (ys : List (TName N)) : List (TName N) :=
   ys.foldl (fun acc y => if acc.contains y then acc else acc ++ [y]) xs
 
+/-- Key token of the single sub-partition `all` (default when a partition's keys were never observed). -/
+def hexAll : String := "x616c6c"
+
 def coreOf (m : PartMeta) : Nat × Nat × Nat := (m.id, m.offset, m.len)
 
 def sortMetas (ms : List PartMeta) : List PartMeta := ms.mergeSort (fun a b => a.offset ≤ b.offset)
@@ -123,8 +126,8 @@ def inferTable (tm : TableMem N K) (obs : List PartMeta) : Option Nat × List St
   let tm1 := batchTable ["all"] (freezeTable tm)
   let cur := tm1.parts.map (fun p => coreOf p.toMeta)
   let newId := tm.nextId
-  let keysOf (id : Nat) : List String := ((obs.find? (fun m => m.id = id)).map (·.keys)).getD ["all"]
-  if obs.map coreOf = cur then (none, keysOf newId, ["all"])
+  let keysOf (id : Nat) : List String := ((obs.find? (fun m => m.id = id)).map (·.keys)).getD [hexAll]
+  if obs.map coreOf = cur then (none, keysOf newId, [hexAll])
   else
     let cid := tm1.nextId
     let cand (i : Nat) : List (Nat × Nat × Nat) :=
@@ -133,7 +136,7 @@ def inferTable (tm : TableMem N K) (obs : List PartMeta) : Option Nat × List St
       | first :: rest => cur.take i ++ [(cid, first.2.1, ((first :: rest).map (·.2.2)).sum)]
     match (List.range cur.length).find? (fun i => cand i = obs.map coreOf) with
     | some i => (some i, keysOf newId, keysOf cid)
-    | none => (none, keysOf newId, ["all"])
+    | none => (none, keysOf newId, [hexAll])
 
 def inferFlush (s : Sim) (obs : List ObsPart) : FlushIn N :=
   let per := s.tables.filterMap (fun t =>
@@ -143,8 +146,8 @@ def inferFlush (s : Sim) (obs : List ObsPart) : FlushIn N :=
       let o := sortMetas ((obs.filter (fun p => p.table = t)).map (·.pm))
       some (t, inferTable tm o))
   { compactions := per.filterMap (fun x => x.2.1.map (fun i => (x.1, i))),
-    keysNew := fun t => ((per.find? (fun x => x.1 = t)).map (·.2.2.1)).getD ["all"],
-    keysCompact := fun t => ((per.find? (fun x => x.1 = t)).map (·.2.2.2)).getD ["all"] }
+    keysNew := fun t => ((per.find? (fun x => x.1 = t)).map (·.2.2.1)).getD [hexAll],
+    keysCompact := fun t => ((per.find? (fun x => x.1 = t)).map (·.2.2.2)).getD [hexAll] }
 
 /-- Does the compaction of the suffix `i` of table `t` (after freeze + batch) merge a NULL cell? -/
 def mergesNull (s : Sim) (t : TName N) (i : Nat) : Bool :=
@@ -351,8 +354,16 @@ def effectsModel (s : Sim) : String :=
   match s.fault with
   | some f => "fault:" ++ f
   | none =>
+  -- files of transient partitions (stored and removed in the same step) are left out, as in the harness
+  let all := s.lastEff.flatten
+  let removed (t : TName N) (id : Nat) : Bool := all.any (fun e => match e with | .delPart t' id' _ => t' = t && id' = id | _ => false)
+  let storedP (t : TName N) (id : Nat) : Bool := all.any (fun e => match e with | .storePart t' id' _ => t' = t && id' = id | _ => false)
+  let keep (e : Eff N) : Bool := match e with
+    | .storePart t id _ => !(removed t id)
+    | .delPart t id _ => !(storedP t id)
+    | _ => true
   let phases := s.lastEff.filterMap (fun ph =>
-    match ph.map (effTok s) with
+    match (ph.filter keep).map (effTok s) with
     | [] => none
     | (k, p) :: rest => some (k ++ ":" ++ ",".intercalate (sortStrs (p :: rest.map (·.2)))))
   if phases.isEmpty then "E_" else "E" ++ ">".intercalate phases
